@@ -50,6 +50,11 @@ LEVEL_TEXT = ("PARTIAL. Lean 4 theorems over R about a line-by-line model of sta
               "n >= 3 (so Chi_square is monotone in Normal(p) inside the window t^2 <= 49n/16 - all |t| <= 3.5 for n >= 4 - and "
               "inside one piece of the selector); junction inequalities for n = 4, 16; NEG theorems: a downward step at the junction "
               "t = -2 for n = 9 (known finding C17-F2, replayed: n = 7, 8, 9) and the turned polynomial in the extreme tail (known finding C17-F1). "
+              "Student N >= 3: the tail Hill branch strictly decreasing in alpha for N <= 10000; the first Hill branch equals "
+              "sqrt(N*hillExp(a*y1^2)) with x = -Normal(alpha) entering through y1 only, its outer map (incl. the 0.002 switch "
+              "between 0.5y^2+y and exp(y)-1) strictly increasing, so Student is monotone there GIVEN y1^2 ordered (the rational "
+              "function of x and Normal itself: not proved). KSprob regenerated whole (constants, start values; loops pinned) and "
+              "proved equal to the model (C17_ksprob_source_tie). "
               "Student, 3 <= N <= 10000, on the regenerated function: Hill's tail branch ((d*2a)^(2/N) <= a + 0.05) is strictly "
               "decreasing in the probability and positive below 1/2, mirrored above (C17_hill_tail_radicand_anti, "
               "C17_student_mono_hill_tail); for N = 3 that is every alpha <= 1/24 (C17_student_mono_N3); the other Hill branch "
